@@ -277,3 +277,40 @@ MANIFEST_TEXT = {
         note="Model fidelity is checked by differential execution, not proved. ParseFloat/GetCanonicalDouble are an oracle column. big.Rat spellings outside the decimal grammar "
              "and time.Parse's lenient fallback are outside the model."),
 }
+
+# ---- later revisions (kept as overrides so that the history of each text stays readable above) ----
+MANIFEST_TEXT["C03"] = dict(
+    text="Lean theorems (Gsp.Props.C03): the tree itself, and so its root, is independent of insertion order (insertion_order_irrelevant, from Gsp.Lemmas.SmtPerm.addAll_perm: every successful "
+         "insertion sequence yields the canonical tree `build` of its leaves); the content (key -> value map) likewise (content_perm_indep); a caller-provided empty tree is the default tree "
+         "(empty_tree_param); under the idealised-hash hypothesis equal roots mean equal trees (root_binds_tree), so any single-field value change, addition or removal changes the root "
+         "(value_change_changes_root, presence_change_changes_root). The model's entries/root are functions of the dataset (determinism by construction). Tie: metamorphic run on the real code "
+         "(k renderings x r repetitions per abstract document, default vs caller-provided empty tree) with all roots equal to each other and to the root computed by the Lean model (own Poseidon + SMT); "
+         "number respellings with another lexical form judged one by one; every single-field mutation must change the real root.",
+    note="PARTIAL: the document-level invariances (key order, array permutation, whitespace, number spelling, blank-node labels, inline contexts) pass through json-gold's expansion and URDNA2015, "
+         "which are not modelled: they are covered by the metamorphic run; the Lean theorems start at the dataset. Known finding F5: a number written with another lexical form of the same value "
+         "('5.0', '05' for '5') can move elements of arrays (positions follow the N-Quads order of lexical forms and canonical blank-node labels); reported as KNOWN-FINDING only when the entries "
+         "with positions erased are the same multiset - any other root change under respelling is a violation.")
+PROPS["C03"]["rule"] = (
+    "cases = abstract documents; each is rendered k times with independent presentation choices (object keys shuffled, arrays permuted, whitespace, JSON number spellings with the same lexical form, "
+    "blank-node labels added/renamed, context inline / by URL / in an array, id/type aliases vs keywords) and each rendering merklized r times alternating the default tree and a caller-provided "
+    "empty tree; all roots must equal the base root, which must equal the model's root; kx further renderings write numbers with another lexical form of the same value ('5.0', '05', '+5', '5e0', "
+    "'50e-1') and are judged one by one (root equal, or known finding F5 when only array positions moved); then up to m single-field value changes must each change the root. non-trivial = every "
+    "document (>= 1 re-presentation and >= 1 mutation); distinct = distinct (op,input) hashes")
+MANIFEST_TEXT["C04"]["text"] = MANIFEST_TEXT["C04"]["text"].replace(
+    "non-integral and non-numeric forms rejected,",
+    "non-integral, non-numeric and non-decimal forms (hex, binary, octal, fractions a/b, digit separators: defect D16, repaired) rejected,")
+MANIFEST_TEXT["C04"]["note"] = ("Model fidelity is checked by differential execution, not proved. ParseFloat/GetCanonicalDouble and the int64 conversion of a float64 are oracle columns. Known findings F4 "
+                                "(a double whose 16-digit canonical form overflows) and F7 (a float64 beyond int64 given for an integer datatype goes through the 16-digit canonical double).")
+PROPS["C04"]["trusted"] = ["ld.GetCanonicalDouble / strconv.ParseFloat / int64(float64) (oracle columns `canon`, `whole`)",
+                           "the lenient fallback of time.Parse is outside the model and not generated; big.Rat spellings outside the decimal grammar are generated and must be rejected (D16)"]
+MANIFEST_TEXT["C10"]["text"] = MANIFEST_TEXT["C10"]["text"].replace(
+    "any two spellings denoting the same integer incl. float64 canonical spellings (standalone_eq_leaf_int),",
+    "JSON numbers under every datatype with no side condition (standalone_eq_leaf_number: the standalone API and the RDF conversion spell a float64 with the same function numberLex - whole numbers "
+    "with all their digits unless the datatype is xsd:double; the repaired defect D17), any spelling denoting the same integer (standalone_eq_leaf_int),")
+PROPS["C10"]["rule"] = PROPS["C10"]["rule"].replace(
+    "JSON numbers, numeric strings, booleans, strings;",
+    "JSON numbers incl. whole numbers between 2^53 and 2^69 and numbers/booleans under string and custom datatypes, numeric strings, booleans, strings;")
+MANIFEST_TEXT["C13"]["text"] = MANIFEST_TEXT["C13"]["text"].replace(
+    "a tree rebuilt in another insertion order has the same content (restored_same_content);",
+    "a tree rebuilt in another insertion order is the same tree, hence has the same root (restored_same_tree, from addAll_perm) and the same content (restored_same_content);")
+MANIFEST_TEXT["C13"]["note"] = "gob's byte layer is not modelled (token-level model)."
